@@ -189,6 +189,41 @@ pub fn run(tier: &str) -> i32 {
             compiled.push((idx, text.clone()));
         }
     }
+    // ---- free-running concurrent leg (not exhaustive: real threads released together, a few rounds). Several large
+    // modules are formatted at the same time; each call must still embed its own source. C18's scheduler and its
+    // syscall monitors are the systematic counterpart; unhooked file-system hand-offs are only visible to a run like this
+    {
+        let big: Vec<&Input> = ins.iter().filter(|i| i.src.len() >= 66_000 && (i.key.starts_with("long-run|") || i.key.starts_with("long|70000|"))).take(8).collect();
+        let rounds = if thorough { 6 } else { 3 };
+        let cfg_on = Config { rustfmt: true, ..Config::default() };
+        for round in 0..rounds {
+            let barrier = std::sync::Arc::new(std::sync::Barrier::new(big.len()));
+            let outs: Vec<Outcome> = std::thread::scope(|sc| {
+                let hs: Vec<_> = big.iter().map(|i| {
+                    let b = barrier.clone();
+                    let src = i.src.clone();
+                    sc.spawn(move || {
+                        b.wait();
+                        generate(&src, &cfg_on)
+                    })
+                }).collect();
+                hs.into_iter().map(|h| h.join().unwrap_or(Outcome::Panic("thread panicked".into()))).collect()
+            });
+            for (i, o) in big.iter().zip(outs.iter()) {
+                rep.evaluations += 1;
+                let case = format!("concurrent|{}|round={round}", i.key);
+                match o {
+                    Outcome::Ok(t) => match source_value(t) {
+                        Ok(Val::Str(s)) if s == i.src => {}
+                        Ok(_) => rep.violation(case, "SOURCE of a module formatted concurrently with others is not its own input".to_string(), json!({"wgsl": i.src.chars().take(200).collect::<String>(), "config": cfg_on.key()})),
+                        Err(e) => rep.violation(case, format!("output of a module formatted concurrently with others cannot be read: {e}"), json!({"config": cfg_on.key()})),
+                    },
+                    other => rep.violation(case, format!("generation fails when formatted concurrently with others: {}", other.class().chars().take(80).collect::<String>()), json!({"config": cfg_on.key()})),
+                }
+            }
+        }
+        rep.set("concurrent_leg", json!({"threads": big.len(), "rounds": rounds, "note": "free-running, not exhaustive"}));
+    }
     // ---- include variant
     let base = "@group(0) @binding(0) var<uniform> u: vec4<f32>;\n@compute @workgroup_size(1) fn main() { let x = u.x; }\n";
     let embedded_rest = match generate(base, &Config::default()) {
